@@ -74,10 +74,70 @@ Definition missing (d : conf) (l : list seg) : list str :=
 Definition cm_name_char (c : char) : bool :=
   is_alnum c || (c =? 95) || (c =? 47) || (c =? 46) || (c =? 43) || (c =? 45).
 
+Definition cstr (v : value) : str :=
+  match v with
+  | VStr s => s
+  | VBool b => if b then [49] else [48]
+  | VInt z => Z_dec z
+  end.
+(* the value of a variable and the report when it is undefined *)
+Definition lookup_out (d : conf) (name : str) : str * list str :=
+  match lookup d name with Some val => (cstr val, []) | None => ([], [name]) end.
+
+(* what may stand between "${" and "}": name characters, nested ${...} and @v@ *)
+Inductive nexpr :=
+| NEnd
+| NChars (s : str) (r : nexpr)
+| NBrace (i : nexpr) (r : nexpr)
+| NAt (v : str) (r : nexpr).
+
+Fixpoint nrender (e : nexpr) : str :=
+  match e with
+  | NEnd => []
+  | NChars s r => s ++ nrender r
+  | NBrace i r => 36 :: 123 :: nrender i ++ 125 :: nrender r
+  | NAt v r => 64 :: v ++ 64 :: nrender r
+  end.
+Fixpoint wf_nexpr (e : nexpr) : bool :=
+  match e with
+  | NEnd => true
+  | NChars s r => forallb cm_name_char s && wf_nexpr r
+  | NBrace i r => wf_nexpr i && wf_nexpr r
+  | NAt v r => nonempty v && forallb cm_name_char v && wf_nexpr r
+  end.
+(* the text an expression stands for, inside out: a nested ${...} is replaced by the value of the
+   variable whose NAME is the text its inside stands for.  None: that name is not a variable name
+   (the implementation raises a MesonException) *)
+Fixpoint neval (d : conf) (e : nexpr) : option (str * list str) :=
+  match e with
+  | NEnd => Some ([], [])
+  | NChars s r =>
+      match neval d r with Some (o, m) => Some (s ++ o, m) | None => None end
+  | NAt v r =>
+      match neval d r with
+      | Some (o, m) => Some (fst (lookup_out d v) ++ o, snd (lookup_out d v) ++ m)
+      | None => None
+      end
+  | NBrace i r =>
+      match neval d i with
+      | Some (name, m1) =>
+          if forallb cm_name_char name then
+            match neval d r with
+            | Some (o, m) => Some (fst (lookup_out d name) ++ o, m1 ++ snd (lookup_out d name) ++ m)
+            | None => None
+            end
+          else None
+      | None => None
+      end
+  end.
+(* ${e} as a whole *)
+Definition nvalue (d : conf) (e : nexpr) : option (str * list str) := neval d (NBrace e NEnd).
+
 Inductive cseg :=
 | CLit (s : str)      (* text without '@' (and, in the cmake format, without '$') *)
 | CVar (v : str)      (* @v@  *)
 | CBrace (v : str)    (* ${v} (cmake format only) *)
+| CNested (e : nexpr) (* ${e}: nested variable references (cmake format only) *)
 | CAt                 (* an '@' that opens no placeholder *)
 | CDollar.            (* a '$' not followed by '{' (cmake format only) *)
 
@@ -86,6 +146,7 @@ Definition crender (g : cseg) : str :=
   | CLit s => s
   | CVar v => 64 :: v ++ [64]
   | CBrace v => 36 :: 123 :: v ++ [125]
+  | CNested e => 36 :: 123 :: nrender e ++ [125]
   | CAt => [64]
   | CDollar => [36]
   end.
@@ -107,22 +168,17 @@ Fixpoint wf_csegs (at_only : bool) (l : list cseg) : bool :=
        | CLit s => forallb (fun c => negb (c =? 64) && (at_only || negb (c =? 36))) s
        | CVar v => nonempty v && forallb cm_name_char v
        | CBrace v => negb at_only && forallb cm_name_char v
+       | CNested e => negb at_only && wf_nexpr e
        | CAt => negb (opens_var rest false)
        | CDollar => negb at_only && negb (hd_is 123 rest)
        end) && wf_csegs at_only r
-  end.
-
-Definition cstr (v : value) : str :=
-  match v with
-  | VStr s => s
-  | VBool b => if b then [49] else [48]
-  | VInt z => Z_dec z
   end.
 
 Definition cexpand (d : conf) (g : cseg) : str :=
   match g with
   | CLit s => s
   | CVar v | CBrace v => match lookup d v with Some val => cstr val | None => [] end
+  | CNested e => match nvalue d e with Some (o, _) => o | None => [] end
   | CAt => [64]
   | CDollar => [36]
   end.
@@ -130,5 +186,9 @@ Definition cexpand_all (d : conf) (l : list cseg) : str := concat (map (cexpand 
 Definition cmissing (d : conf) (l : list cseg) : list str :=
   concat (map (fun g => match g with
                         | CVar v | CBrace v => match lookup d v with Some _ => [] | None => [v] end
+                        | CNested e => match nvalue d e with Some (_, m) => m | None => [] end
                         | _ => []
                         end) l).
+(* every nested reference computes a variable name (otherwise the implementation raises) *)
+Definition cseg_ok (d : conf) (g : cseg) : bool :=
+  match g with CNested e => match nvalue d e with Some _ => true | None => false end | _ => true end.
